@@ -57,26 +57,25 @@ class Check:
 
         class _Only:
             def __enter__(self_):
-                self_.prev = chk._only
-                chk._only = (set(rules) if rules is not None else None, keys)
+                chk._only = (chk._only or []) + [(set(rules) if rules is not None else None, keys)]
 
             def __exit__(self_, *a):
-                chk._only = self_.prev
+                chk._only = chk._only[:-1] or None
         return _Only()
 
     def _accept(self, rule, inst):
-        if self._only is None:
-            return True
-        rs, kp = self._only
-        if rs is not None and rule not in rs:
-            return False
-        if kp is not None and not kp("%s:%s" % (rule, inst)):
-            return False
+        """nested filters intersect: an obligation is recorded only if every active filter accepts it"""
+        for rs, kp in (self._only or []):
+            if rs is not None and rule not in rs:
+                return False
+            if kp is not None and not kp("%s:%s" % (rule, inst)):
+                return False
         return True
 
     def rule(self, rid, text):
-        if self._only is not None and self._only[0] is not None and rid not in self._only[0]:
-            return
+        for rs, kp in (self._only or []):
+            if rs is not None and rid not in rs:
+                return
         self.rule_texts[rid] = text
 
     def ob(self, rule, inst, ok, detail="", site=None, nontrivial=True, sample=None):
